@@ -1,5 +1,7 @@
 package processor
 
+//gosx:file init=github.com/free5gc/chf/cdr/asn
+
 import (
 	charging_datatype "github.com/free5gc/chf/ccs_diameter/datatype"
 	chf_context "github.com/free5gc/chf/internal/context"
